@@ -327,8 +327,8 @@ def evalExpr (b : Binding) : Expr → Option ER
   | .const t => some (.term t)
   | .var x => (b.v.get x).map .term
   | .or l r =>
-    -- `lhs.eval(..)?.is_truthy()`; after notes/fixes/C13-logical-or-and-error.diff (detected by the
-    -- extractor): `lhs.eval(..).and_then(|e| e.is_truthy())`
+    -- `lhs.eval(..).and_then(|e| e.is_truthy())` (commit e4da433; the extractor reads which form the
+    -- source has); before: `lhs.eval(..)?.is_truthy()`
     if Gen.SparqlDispatch.orAndLenient then
       (orTable ((evalExpr b l).bind ER.isTruthy) ((evalExpr b r).bind ER.isTruthy)).map erBool
     else do
@@ -428,8 +428,8 @@ def select (D : List Quad) : GP → List (Option Term) → Option Binding → Ex
       let r₀ ← select D inner [] binding
       let names := graphNameSet D
       if names.isEmpty then
-        -- `self.select(inner, &[], binding)`; after notes/fixes/C13-graph-var-no-named-graph.diff
-        -- (detected by the extractor): no row, the variables of the probe
+        -- no row, the variables of the probe (commit d984918; the extractor reads which form the
+        -- source has); before: `self.select(inner, &[], binding)`
         if Gen.SparqlDispatch.graphEmptyFixed then pure { vars := r₀.vars, rows := [] }
         else select D inner [] binding
       else graphRec (select D inner) x binding names
